@@ -478,7 +478,35 @@ def gen_c07_corpus(rng, tier):
             for k in ("f32", "f64", "wf"):
                 case += ["hdr " + k, "hdrw " + k, "hdrw2 " + k]
             cases.append(case)
+    # the carry of the TAIL dword: a running sum whose low half is close to 2^32 when the 1..3 tail bytes are added
+    # (the second fold in `check_sum`, never executed by real files: found by the line-coverage run of the streams)
+    for fn, data in picks[:4]:
+        body = data[:len(data) & ~3]
+        low = _running_checksum(body) & 0xFFFFFFFF
+        for t, tail in ((3, b"\xff\xff\xff"), (1, b"\xff"), (2, b"\x00\x80")):
+            tv = int.from_bytes(tail, "little")
+            for target in (0xFFFFFFFF, 0x100000000 - tv, 0xFFFFFFFF - tv, 0x100000000 - tv + 1):
+                x = (target - low) % 0xFFFFFFFF or 1        # one more dword that brings the low half to `target` (mod 2^32-1 arithmetic)
+                case = [img_line(rng, body + struct.pack("<I", x & 0xFFFFFFFF) + tail, rng.choice([0, 4, 8]), "e")]
+                for k in ("f32", "f64", "wf"):
+                    case += ["hdr " + k, "hdrw2 " + k]
+                cases.append(case)
     return cases
+
+
+def _running_checksum(body):
+    """the 32-bit end-around-carry sum of the dwords of `body` except the CheckSum field (generator helper: only used
+    to AIM the inputs, never as an oracle)"""
+    e = struct.unpack_from("<I", body, 60)[0] if len(body) >= 64 else 0
+    pos = (e + 24 + 64) // 4
+    s = 0
+    for i in range(len(body) // 4):
+        if i == pos:
+            continue
+        s = (s & 0xFFFFFFFF) + struct.unpack_from("<I", body, 4 * i)[0] + (s >> 32)
+        if s > 0xFFFFFFFF:
+            s = (s & 0xFFFFFFFF) + (s >> 32)
+    return s
 
 
 def load_view(pe, data):
